@@ -44,8 +44,20 @@ type Unit struct {
 	// Unqualified: renders its columns without a table qualifier (usable when
 	// the columns belong to a joined table rather than the statement's table).
 	Unqualified bool
-	Rep         int // 1: class representative (quick 3-chains), 2: thorough 3-chains, 0: neither
-	Args        func(base *gorm.DB) []interface{}
+	// NamedWrapped: a single-call group db.Or(x) / db.Not(x) whose x is a
+	// named-argument string holding AND/OR (the string is handed to Or()/Not()
+	// inside the group). NamedConn: a transparent group db.Where(x) around such
+	// a string ("or"/"and"). WrappedRawOr: db.Or(x) around a raw fragment that
+	// holds an OR (any spelling). Input-side facts, used for tags only.
+	NamedWrapped bool
+	NamedConn    string
+	WrappedRawOr bool
+	// Ext: member of a large family of near-identical forms (single-call groups
+	// around every raw spelling); quick tiers pair these only with the
+	// representative units in 2-call chains, thorough tiers with everything.
+	Ext  bool
+	Rep  int // 1: class representative (quick 3-chains), 2: thorough 3-chains, 0: neither
+	Args func(base *gorm.DB) []interface{}
 }
 
 func (u *Unit) Class() string { return u.Render + "/" + u.Conn }
@@ -601,5 +613,74 @@ func Catalogue(opt Options) []*Unit {
 		Args: func(base *gorm.DB) []interface{} {
 			return []interface{}{base.Where(SX.expr).Not(map[string]interface{}{"a": 1, "b": 1})}
 		}})
+
+	// ------------------------------------------- groups consisting of ONE call
+	// db.Or(x) / db.Not(x) / db.Where(x) handed to Where/Or/Not: gorm wraps the
+	// single condition in one-element And/Or/Not wrappers (appended at the end:
+	// indices above stay stable).
+	type one struct {
+		lab      string
+		args     []interface{}
+		tree     *Node // meaning of x
+		neg      *Node // meaning of Not(x)
+		odd      bool  // raw fragment with an AND/OR keyword not delimited by plain spaces
+		raw      bool
+		unq      bool
+		repOr    int
+		negIsAll bool
+	}
+	var ones []one
+	for si, sp := range seps {
+		text := P1.x.raw + fmt.Sprintf(sp.fmt, sp.kw("or")) + P1.y.raw
+		if sp.name == "paren" {
+			text = "(" + P1.x.raw + fmt.Sprintf(sp.fmt, sp.kw("or")) + P1.y.raw + ")"
+		}
+		rep := 0
+		if si == 0 {
+			rep = 2
+		}
+		ones = append(ones, one{lab: fmt.Sprintf("%q", text), args: []interface{}{text}, tree: orAB, neg: Not(orAB), odd: sp.odd, raw: true, unq: true, repOr: rep})
+	}
+	ones = append(ones,
+		one{lab: `"a = ? OR b = ?",1,1`, args: []interface{}{"a = ? OR b = ?", 1, 1}, tree: orAB, neg: Not(orAB), raw: true, unq: true},
+		one{lab: `"a = @a OR b = @b",sql.Named("a",1),sql.Named("b",1)`, args: []interface{}{"a = @a OR b = @b", sql.Named("a", 1), sql.Named("b", 1)}, tree: orAB, neg: Not(orAB), raw: true, unq: true},
+		one{lab: `"a = 1 AND b = 1"`, args: []interface{}{"a = 1 AND b = 1"}, tree: andAB, neg: Not(andAB), raw: true, unq: true},
+		one{lab: `"a = 1\tAND\tb = 1"`, args: []interface{}{"a = 1\tAND\tb = 1"}, tree: andAB, neg: Not(andAB), raw: true, unq: true},
+		one{lab: `"a = 1 OR b = 1 AND s = 'x'"`, args: []interface{}{"a = 1 OR b = 1 AND s = 'x'"}, tree: Or(A1.n, And(B1.n, SX.n)), neg: Not(Or(A1.n, And(B1.n, SX.n))), raw: true, unq: true},
+		one{lab: `map{"a":1,"b":1}`, args: []interface{}{map[string]interface{}{"a": 1, "b": 1}}, tree: andAB, neg: afAB, unq: true, negIsAll: true},
+		one{lab: `Cols{A:1,B:1}`, args: []interface{}{Cols{A: 1, B: 1}}, tree: andAB, neg: afAB, negIsAll: true},
+		one{lab: `clause.Or(Eq{a,1},Eq{b,1})`, args: []interface{}{clause.Or(A1.expr, B1.expr)}, tree: orAB, neg: Not(orAB), unq: true},
+		one{lab: `clause.And(Eq{a,1},Eq{b,1})`, args: []interface{}{clause.And(A1.expr, B1.expr)}, tree: andAB, neg: afAB, unq: true, negIsAll: true},
+		one{lab: `clause.Expr{"a = ? OR b = ?",1,1}`, args: []interface{}{clause.Expr{SQL: "a = ? OR b = ?", Vars: []interface{}{1, 1}}}, tree: orAB, neg: Not(orAB), raw: true, unq: true},
+	)
+	for i := range ones {
+		o := ones[i]
+		isOddAnd := strings.Contains(o.lab, `\tAND\t`)
+		spelling := i < len(seps)
+		named := strings.HasPrefix(o.lab, `"a = @a`)
+		hasOr := o.raw && strings.Contains(strings.ToUpper(o.lab), "OR")
+		// leave out forms that duplicate units above or add nothing new
+		wantNot := !(spelling && (i == 2 || i == 3 || i == 5 || i == 6)) && o.lab != `map{"a":1,"b":1}` && o.lab != `"a = 1 AND b = 1"`
+		wantWhere := (spelling && i == 5) || isOddAnd || strings.HasPrefix(o.lab, `"a = ? OR`) || strings.HasPrefix(o.lab, `"a = @a`) || strings.HasPrefix(o.lab, "clause.Or(")
+		// db.Or(x): one Or call - as a unit it means x; Not(unit) negates it as a whole
+		add(&Unit{Label: "db.Or(" + o.lab + ")", Render: "group", Conn: "mixed", Tree: o.tree, Neg: Not(o.tree), NegOK: true,
+			Unqualified: o.unq, Rep: o.repOr, OddOr: o.odd, OddAnd: isOddAnd, RawTop: o.raw, NamedWrapped: named, WrappedRawOr: hasOr,
+			Ext:  o.repOr == 0,
+			Args: func(base *gorm.DB) []interface{} { return []interface{}{base.Or(o.args[0], o.args[1:]...)} }})
+		// db.Not(x): as a unit it means Not-of-x, Not(unit) negates that as a whole
+		if wantNot {
+			add(&Unit{Label: "db.Not(" + o.lab + ")", Render: "group", Conn: "mixed", Tree: o.neg, Neg: Not(o.neg), NegOK: true,
+				Unqualified: o.unq, OddOr: o.odd || isOddAnd, NamedWrapped: named,
+				Ext:  true,
+				Args: func(base *gorm.DB) []interface{} { return []interface{}{base.Not(o.args[0], o.args[1:]...)} }})
+		}
+		// db.Where(x): transparent
+		if wantWhere {
+			add(&Unit{Label: "db.Where(" + o.lab + ")", Render: "group", Conn: "mixed", Tree: o.tree, Neg: o.neg, NegOK: true,
+				Unqualified: o.unq, OddOr: o.odd, OddAnd: isOddAnd, RawTop: o.raw, NamedConn: map[bool]string{true: "or", false: ""}[named],
+				Ext:  true,
+				Args: func(base *gorm.DB) []interface{} { return []interface{}{base.Where(o.args[0], o.args[1:]...)} }})
+		}
+	}
 	return us
 }
